@@ -34,6 +34,7 @@ class UserDeleteNode(ActionGroup):
         """
         super().__init__(tracks, actions=[])
         self.tracks: SolutionTracks  # Narrow type from base class
+        has_pred = self.tracks.graph.in_degree(node) > 0
         # delete adjacent edges
         for pred in self.tracks.predecessors(node):
             siblings = self.tracks.successors(pred)
@@ -46,7 +47,8 @@ class UserDeleteNode(ActionGroup):
                 new_track_id = self.tracks.get_track_id(pred)
                 self.actions.append(UpdateTrackIDs(tracks, sib, new_track_id))
             self.actions.append(DeleteEdge(tracks, (pred, node)))
-        for succ in self.tracks.successors(node):
+        orphans = self.tracks.successors(node)
+        for succ in orphans:
             self.actions.append(DeleteEdge(tracks, (node, succ)))
 
         # connect child and parent in track, if applicable
@@ -56,6 +58,20 @@ class UserDeleteNode(ActionGroup):
             predecessor, successor = self.tracks.get_track_neighbors(track_id, time)
             if predecessor is not None and successor is not None:
                 self.actions.append(AddEdge(tracks, (predecessor, successor)))
+                orphans = [succ for succ in orphans if succ != successor]
+
+        # subtrees that are no longer connected to the rest become lineages of their
+        # own (one of them keeps the lineage id if no upstream part is left to carry it)
+        for i, succ in enumerate(orphans):
+            if has_pred or i > 0:
+                self.actions.append(
+                    UpdateTrackIDs(
+                        tracks,
+                        succ,
+                        self.tracks.get_track_id(succ),
+                        self.tracks.get_next_lineage_id(),
+                    )
+                )
 
         # delete node
         self.actions.append(DeleteNode(tracks, node, pixels=pixels))
